@@ -88,7 +88,7 @@ def run(rec):
     if os.environ.get('VERIF_CONFIG') == 'python':
         return
     quick = rec.tier == 'quick'
-    n_per = 6 if quick else 120
+    n_per = 16 if quick else 150
     dnames = 'float64,complex128,int64' if quick else 'float64,complex128,int64,float32,complex64'
     rec.rule = ('every operation of tensorops.OPS over generated structures, executed with identical seeds in two interpreter '
                 'processes (compiled extension rebuilt from the current .pyx / pure Python); compared: dense values (1e-10), labels, '
